@@ -7,7 +7,7 @@ CONSTANTS
   Gaps = {0, 3}
   Slack = {0, 2}
   Policies <- PoliciesT
-  Modes <- ModesAll
+  Modes <- ModesS
 INVARIANTS TypeOK Conserve Ordered OneNotice ErrPassThrough FailedSilent Causal
   BackoffClosedForm BackoffTimes WaitsClosedForm FirstFailure NoStreamSilent Exhausted
 PROPERTIES NeverEnds Progress
